@@ -397,7 +397,8 @@ func ruleCode39Tables(c *Ctx) {
 		key := fmt.Sprintf("code39.extendedTable[%d]", r)
 		got := string(rune(r))
 		pos := ext.Pos
-		if e := ext.MapGetInt(int64(r)); e != nil {
+		if e := ext.MapGetInt(int64(r)); e != nil && !(ext.Kind == VList && e.Kind == VString && e.S == "") {
+			// (in an array the empty string stands for "no entry")
 			if e.Kind != VString {
 				c.Undecided(R3, key, e.Pos, "not a string")
 				continue
